@@ -1410,7 +1410,7 @@ int safec_vsnprintf_s(out_fct_type out, const char *funcname, char *buffer,
 
     // termination for s*printf only
     if (out == safec_out_buffer) {
-        rc = out((char)0, buffer, idx < bufsize ? idx : bufsize - 1U, bufsize);
+        rc = out((char)0, buffer, idx, bufsize);
         if (unlikely(rc < 0))
             return rc;
     }
